@@ -167,6 +167,9 @@ def sweep2(t):
     nz, nx = tt.shape
     grad = bool(t["grad"])
     ttsgn = np.full((nz, nx, 2), 7, dtype=np.int32) if grad else np.empty((0, 0, 0), dtype=np.int32)
+    if grad and int(t.get("sgm", 0)) == 1:       # every node already attributed to this sweep direction
+        ttsgn[..., 0] = int(t["dir"][2])
+        ttsgn[..., 1] = int(t["dir"][3])
     dz, dx = float(t["dz"]), float(t["dx"])
     dzi, dxi = 1.0 / dz, 1.0 / dx
     i, j = int(t["i"]), int(t["j"])
@@ -183,6 +186,9 @@ def sweep3(t):
     nz, nx, ny = tt.shape
     grad = bool(t["grad"])
     ttsgn = np.full((nz, nx, ny, 3), 7, dtype=np.int32) if grad else np.empty((0, 0, 0, 0), dtype=np.int32)
+    if grad and int(t.get("sgm", 0)) == 1:
+        for c in range(3):
+            ttsgn[..., c] = int(t["dir"][3 + c])
     dz, dx, dy = float(t["dz"]), float(t["dx"]), float(t["dy"])
     dz2i, dx2i, dy2i = 1.0 / dz / dz, 1.0 / dx / dx, 1.0 / dy / dy
     dargs = (dz, dx, dy, dz2i, dx2i, dy2i, dz2i * dx2i, dz2i * dy2i, dx2i * dy2i, dz2i + dx2i + dy2i)
